@@ -209,15 +209,15 @@ func (h *header) decode(src []byte) (int, error) {
 	mtype := h.Type()
 	//mtype := MessageType(0)
 
-	h.mtypeflags = src[total : total+1]
-	//mtype := MessageType(src[total] >> 4)
-	if !h.Type().Valid() {
+	// The message keeps its own type when the packet is one of another type.
+	if stype := Type(src[total] >> 4); !stype.Valid() {
 		return total, fmt.Errorf("header/Decode: Invalid message type %d", mtype)
+	} else if mtype != stype {
+		return total, fmt.Errorf("header/Decode: Invalid message type %d. Expecting %d", stype, mtype)
 	}
 
-	if mtype != h.Type() {
-		return total, fmt.Errorf("header/Decode: Invalid message type %d. Expecting %d", h.Type(), mtype)
-	}
+	h.mtypeflags = src[total : total+1]
+	//mtype := MessageType(src[total] >> 4)
 
 	//this.flags = src[total] & 0x0f
 	if h.Type() != PUBLISH && h.Flags() != h.Type().DefaultFlags() {
